@@ -31,9 +31,7 @@ def main():
             return 2
         if os.environ.get("SENS_SUITE", "1") == "1":
             # a seeded change only counts if the package's own test suite stays green with it
-            subprocess.run(["/tmp/wt/build_ext.sh", wt], capture_output=True) if os.path.exists("/tmp/wt/build_ext.sh") else None
-            if not os.path.exists("/tmp/wt/build_ext.sh"):
-                subprocess.run("cd %s/yarl && /venv/bin/python -m cython -3 _quoting_c.pyx && gcc -shared -fPIC -O2 -w -I$(/venv/bin/python -c 'import sysconfig;print(sysconfig.get_paths()[\"include\"])') _quoting_c.c -o _quoting_c$(/venv/bin/python -c 'import sysconfig;print(sysconfig.get_config_var(\"EXT_SUFFIX\"))')" % wt, shell=True, capture_output=True)
+            subprocess.run([os.path.join(VERIF, "tools", "build_ext.sh"), wt], capture_output=True)
             t = subprocess.run(["/venv/bin/python", "-m", "pytest", "-q", "-p", "no:cacheprovider", "--timeout=900", "-x"], cwd=wt, capture_output=True, text=True)
             tail = [l for l in t.stdout.splitlines() if " passed" in l or " failed" in l or "error" in l.lower()][-1:] or [t.stdout[-200:]]
             res["suite"] = tail[0].strip()
